@@ -1593,6 +1593,10 @@ func (s *Server) sendLWT(cl *Client) {
 		Created: time.Now().Unix(),
 	}
 
+	if cur, ok := s.Clients.Get(cl.ID); ok && cur != cl && !cur.Properties.Clean && cl.Properties.Will.WillDelayInterval > 0 {
+		return // a newer connection has resumed the session before the delay passed [MQTT-3.1.3-9]
+	}
+
 	if cl.Properties.Will.WillDelayInterval > 0 {
 		pk.Connect.WillProperties.WillDelayInterval = cl.Properties.Will.WillDelayInterval
 		pk.Expiry = time.Now().Unix() + int64(pk.Connect.WillProperties.WillDelayInterval)
